@@ -4,6 +4,7 @@ package main
 
 import (
 	"fmt"
+	"regexp"
 	"os"
 	"go/token"
 	"go/types"
@@ -23,6 +24,23 @@ func (x *Exec) execCall(fr *frame, v ssa.Value, cc *ssa.CallCommon, st *State, r
 	}
 	fnv := x.val(fr, cc.Value, st)
 	rv, nst := x.callWithArgs(fr, cc, fnv, args, st, reach, pos, v)
+	if fr.top && len(x.accWant) > 0 {
+		// allok("<target>[@k]", i): conjunction of the boolean result i over every such call so far
+		if name := callsiteName(cc); name != "" {
+			for tg, a := range x.accWant {
+				if x.siteMatch(fr.fn, tg, name, pos) {
+					v := rv
+					if cc.Signature().Results().Len() > 1 {
+						if a.idx >= len(rv.tup) {
+							continue
+						}
+						v = rv.tup[a.idx]
+					}
+					nst.set(a.comp, x.define("allok", "Bool", "(and "+nst.get(a.comp)+" "+v.t+")"))
+				}
+			}
+		}
+	}
 	if fr.top && len(x.resultWant) > 0 {
 		if name := callsiteName(cc); name != "" {
 			for tg := range x.resultWant {
@@ -33,6 +51,11 @@ func (x *Exec) execCall(fr *frame, v ssa.Value, cc *ssa.CallCommon, st *State, r
 		}
 	}
 	return rv, nst
+}
+
+type accSpec struct {
+	idx  int
+	comp string
 }
 
 type capturedCall struct {
@@ -90,6 +113,10 @@ func (x *Exec) callWithArgs(fr *frame, cc *ssa.CallCommon, fnv sval, args []sval
 				}
 			}
 		}
+	}
+	if fr.top && x.ct != nil && x.ct.OpaqueCalls && !x.errflow {
+		nst := x.havocForWrites(st, &WriteSet{Top: true}, "opaque call")
+		return x.freshResults(sig, nst, reach), nst
 	}
 	var key string
 	var callee *ssa.Function
@@ -1860,6 +1887,27 @@ func (x *Exec) checkCallsites(fr *frame, cc *ssa.CallCommon, args []sval, st *St
 				}
 			}
 		}
+		// captured variables (free variables are cells): where no debug reference has bound the name
+		// and the clause does not dereference it itself, the name means the cell's current contents
+		for _, fv := range fr.fn.FreeVars {
+			pt, ok := fv.Type().(*types.Pointer)
+			if !ok || !isScalarCell(pt.Elem()) {
+				continue
+			}
+			if cur, bound := env.vars[fv.Name()]; bound && cur.T != x.paramEnv[fv.Name()].T {
+				continue
+			}
+			if pe, isParam := x.paramEnv[fv.Name()]; !isParam || regexp.MustCompile(`\*\s*\(?\s*`+regexp.QuoteMeta(fv.Name())+`\b`).MatchString(c.Text) {
+				_ = pe
+				continue
+			}
+			sv, ok := fr.vals[fv]
+			if !ok {
+				continue
+			}
+			et := pt.Elem()
+			env.vars[fv.Name()] = TVal{T: "(select " + st.get(x.so.cellComp(et)) + " " + sv.t + ")", Sort: x.so.sortOf(et), Ty: et}
+		}
 		for i, a := range args {
 			if i < len(cc.Args) {
 				env.vars[fmt.Sprintf("arg%d", i)] = TVal{T: a.t, Sort: x.so.sortOf(cc.Args[i].Type()), Ty: cc.Args[i].Type()}
@@ -1925,6 +1973,10 @@ func callsiteName(cc *ssa.CallCommon) string {
 }
 
 func callsiteMatch(target, name string) bool {
+	if strings.HasSuffix(target, "$") {
+		// "<suffix>$": the callee's name ends here (Descend$ does not match DescendGreaterThan)
+		return name != "" && strings.HasSuffix(name, strings.TrimSuffix(target, "$"))
+	}
 	return name != "" && (target == name || (!strings.HasPrefix(target, "param:") && !strings.HasPrefix(target, "freevar:") && strings.Contains(name, target)))
 }
 
